@@ -543,7 +543,48 @@ def is_pointer_type(cty):
     return is_pointer(cty)
 
 
+def delete_search(ctx):
+    """(s) COTmrDelete looks for the action in the pending list AND in the elapsed list: an action that has elapsed but was
+    not processed yet is cancelled (returns 0, action back in the pool) whatever the pending list holds - in particular
+    when it is empty."""
+    m = ctx.m
+    f = 'COTmrDelete'
+    m.need(f)
+    for (use, elapsed, where) in ((0, 1, 'elapsed list only (pending list empty)'), (1, 0, 'head of the pending list'), (0, 0, 'nowhere')):
+        pe = PEval(m, f)
+        pe.record_sets = False
+        pe.store_filter = lambda k, fld: fld == ('CO_TMR', 'Acts')
+        inputs = {'tmr': 1, 'actId': 3, 'tmr->Max': 8, 'tmr->Use': use, 'tmr->Elapsed': elapsed}
+        if use:
+            inputs.update({'tmr->Use->Action': 1, 'tmr->Use->Action->Id': 3, 'tmr->Use->Action->Next': 1, 'tx->Action': 1})
+        if elapsed:
+            inputs.update({'tmr->Elapsed->Action': 1, 'tmr->Elapsed->Action->Id': 3, 'tmr->Elapsed->Action->Next': 0})
+        trs = pe.run(inputs)
+        site = 'COTmrDelete: action is in the %s' % where
+        bad = None
+        found = bool(use or elapsed)
+        oks = 0
+        for t in trs:
+            pool = [e for e in t.stores()]
+            if found and t.ret == 0 and len(pool) == 1:
+                oks += 1
+            if not found and (t.ret != -1 or pool):
+                bad = 'nothing to delete but returns %s / touches the pool' % t.ret
+        if found and not oks:
+            bad = 'no path cancels the action (returns %s)' % sorted(set(str(t.ret) for t in trs))
+        if found and any(t.ret == -1 and not t.stores() for t in trs) and len(trs) == 1:
+            bad = 'the action is not found (returns -1)'
+        if not trs:
+            bad = 'no path'
+        if bad:
+            ctx.ob(P, 'RF2-tmr-delete', f, site, None)
+            ctx.find(P, 'RF2-tmr-delete', f, 'delete:%d:%d' % (use, elapsed), m.loc(f, m.funcs[f].line), '%s: %s' % (site, bad))
+        else:
+            ctx.ob(P, 'RF2-tmr-delete', f, site, 'cancelled and returned to the pool' if found else 'returns -1, pool untouched')
+
+
 def run(ctx):
+    delete_search(ctx)
     equal_expiry_merge(ctx)
     create_service_tables(ctx)
     head_delta(ctx)
